@@ -121,6 +121,8 @@ def rand_op(rng, g, D, corr, nimg=1):
                 if k == "pad" and m < 0:
                     m = -min(-m, max((n[i] - 2) // 2, 0))
                 num.append(m)
+        if rng.random() < .3:   # the symmetric per-axis form margin=(mx, my[, mz])
+            return {"op": k, "margin": [num[2 * i] for i in range(D)], "value": rng.choice([0, 0, 2.5, -1.0])}
         return {"op": k, "num": num, "value": rng.choice([0, 0, 2.5, -1.0])}
     if k == "center_crop":
         return {"op": k, "size": [rng.randint(2, n[i] + 2) for i in range(D)]}
